@@ -599,7 +599,8 @@ where
         + VecZnxRshTmpBytes
         + VecZnxLshTmpBytes
         + VecZnxLshAssign<BE>
-        + VecZnxLsh<BE>,
+        + VecZnxLsh<BE>
+        + VecZnxZero,
 {
     fn glwe_shift_tmp_bytes(&self) -> usize {
         self.vec_znx_rsh_tmp_bytes().max(self.vec_znx_lsh_tmp_bytes())
@@ -664,8 +665,13 @@ where
         assert!(res.rank() >= a.rank());
 
         let base2k: usize = res.base2k().into();
-        for i in 0..res.rank().as_usize() + 1 {
+        // Columns `a` does not have count as zero.
+        let a_cols: usize = a.rank().as_usize() + 1;
+        for i in 0..a_cols {
             self.vec_znx_lsh(base2k, k, res.data_mut(), i, a.data(), i, scratch);
+        }
+        for i in a_cols..res.rank().as_usize() + 1 {
+            self.vec_znx_zero(res.data_mut(), i);
         }
     }
 
@@ -690,7 +696,8 @@ where
         assert!(res.rank() >= a.rank());
 
         let base2k: usize = res.base2k().into();
-        for i in 0..res.rank().as_usize() + 1 {
+        // Columns `a` does not have count as zero.
+        for i in 0..a.rank().as_usize() + 1 {
             self.vec_znx_lsh_add_into(base2k, k, res.data_mut(), i, a.data(), i, scratch);
         }
     }
@@ -716,7 +723,8 @@ where
         assert!(res.rank() >= a.rank());
 
         let base2k: usize = res.base2k().into();
-        for i in 0..res.rank().as_usize() + 1 {
+        // Columns `a` does not have count as zero.
+        for i in 0..a.rank().as_usize() + 1 {
             self.vec_znx_lsh_sub(base2k, k, res.data_mut(), i, a.data(), i, scratch);
         }
     }
